@@ -2,7 +2,6 @@ package main
 
 import (
 	"errors"
-	"fmt"
 	"os"
 	"path/filepath"
 	"sync/atomic"
@@ -64,9 +63,6 @@ func (p *pauseStore) PutChangeSet(a, b map[string][]byte) error {
 		p.reached <- struct{}{}
 		<-p.goWrite
 		err := p.Store.PutChangeSet(a, b)
-		if os.Getenv("STORE_DEBUG") != "" {
-			fmt.Fprintf(os.Stderr, "paused PutChangeSet %d+%d keys: err=%v\n", len(a), len(b), err)
-		}
 		p.written <- struct{}{}
 		<-p.goOn
 		return err
